@@ -18,8 +18,13 @@
      solidity/contracts/fip20             FIP20 / WFX as ledgers (transfer mint burn deposit withdraw)
 
    as the code IS in this snapshot: the newer many-to-one accounting and the older
-   IsOriginOrConvertedDenom / ConvertDenomToTarget accounting coexist, each entry point is modelled with the
+   IsOriginOrConvertedDenom / ConvertDenomToTarget accounting coexist; each entry point is modelled with the
    rule it actually calls.  No proofs in this file.
+
+   Structure.  Every balance-moving function of the code is a straight-line sequence of bank / FIP20 statements;
+   it is transcribed as a `prog` = list of `act`s (add to a cell, subtract from a cell with the sufficiency
+   check the callee performs, a boolean check).  `runB` executes a prog on the balances.  The pool / batch /
+   bridge-call records and the entry points are ordinary functions over the whole state calling these progs.
 
    Abstractions.  Accounts, denoms, tokens and chains are integers:
      chain c          : 1..8, its crosschain module account is account c
@@ -30,9 +35,9 @@
      denoms of t      : base = 10*t_id, bridge denom on chain c = 10*t_id + c (FX: the base itself),
                         IBC voucher alias = 10*t_id + 9
    The token registry (kind, chains with a bridge alias, IBC alias) is a static configuration; the pair's
-   Enabled flag is state.  Amounts are Z; every message amount is > 0 (ValidateBasic), sdkmath.Int's 256-bit
+   Enabled flag is state.  Amounts are Z; every message amount is > 0 (ValidateBasic); sdkmath.Int's 256-bit
    cap is not modelled.  A failing operation returns None: the SDK discards the transaction's cache branch, so
-   the state is unchanged (step_total below). *)
+   the state is unchanged (`step`). *)
 From Coq Require Import ZArith List Bool.
 Import ListNotations.
 Open Scope Z_scope.
@@ -66,180 +71,134 @@ Fixpoint find_tok (g : cfg) (t : Z) : option token :=
   match g with [] => None | x :: r => if t_id x =? t then Some x else find_tok r t end.
 
 Definition memZ (x : Z) (l : list Z) : bool := existsb (Z.eqb x) l.
+Definition mem2 (x : Z * Z) (l : list (Z * Z)) : bool := existsb (key_eqb x) l.
 
+(* chains are 1..8 (the message router knows no other name); the functions below are made total by clamping *)
+Definition chain_ok (c : Z) : bool := (1 <=? c) && (c <=? 8).
+Definition cacc (c : Z) : Z := if chain_ok c then c else 1.   (* module account of chain c *)
 Definition base_of (t : token) : Z := 10 * t_id t.
 Definition alias_of (t : token) (c : Z) : Z :=
-  match t_kind t with KFX => FX | _ => 10 * t_id t + c end.
+  match t_kind t with KFX => 10 * t_id t | _ => 10 * t_id t + (if chain_ok c then c else 0) end.
 Definition ibc_of (t : token) : Z := 10 * t_id t + 9.
 Definition is_fx (t : token) : bool := match t_kind t with KFX => true | _ => false end.
 Definition is_ext (t : token) : bool := match t_kind t with KExt => true | _ => false end.
 Definition is_mod (t : token) : bool := match t_kind t with KMod => true | _ => false end.
+Definition on_chain (t : token) (c : Z) : bool := chain_ok c && memZ c (t_chains t).
 
-(* ---------- state ---------- *)
-Record ptx := { p_id : Z; p_sender : Z; p_tok : Z; p_amt : Z; p_fee : Z }.
-Record batch := { b_nonce : Z; b_tok : Z; b_txs : list ptx; b_timeout : Z }.
-Record bcall := { c_nonce : Z; c_refund : Z; c_toks : list (Z * Z); c_timeout : Z }.
-
-(* per-chain bridge records *)
-Record xstate := {
-  x_pool : list ptx;          (* unbatched transfers *)
-  x_batches : list batch;
-  x_calls : list bcall;       (* outgoing bridge calls, ascending nonce *)
-  x_txid : Z; x_batchid : Z; x_callid : Z;   (* last ids handed out *)
-  x_height : Z;               (* last observed external block height *)
-  x_rel : list Z;             (* tx ids with an erc20 OutgoingTransferRelation *)
-  x_frommsg : list Z          (* bridge-call nonces created by MsgBridgeCall *)
-}.
-Definition x0 : xstate :=
-  {| x_pool := []; x_batches := []; x_calls := []; x_txid := 0; x_batchid := 0; x_callid := 0;
-     x_height := 0; x_rel := []; x_frommsg := [] |}.
-
-Record state := {
+(* ---------- balances and straight-line balance programs ---------- *)
+Record bals := {
   bank : map2;      (* (account, denom) -> amount *)
   supply : map1;    (* denom -> amount *)
   ebal : map2;      (* (token, holder) -> ERC-20 balance *)
   etot : map1;      (* token -> ERC-20 totalSupply *)
-  disabled : map1;  (* token -> 1 if the pair is toggled off *)
-  xs : list (Z * xstate);   (* chain -> bridge records (shadowing) *)
-  dep : map2;       (* ghost: (token, chain) -> amount deposited by executed inbound events; chain 9 = IBC *)
-  exe : map2        (* ghost: (token, chain) -> amount observed as executed on the external chain *)
+  disabled : map1   (* token -> 1 if the pair is toggled off *)
 }.
 
-Fixpoint getx (c : Z) (l : list (Z * xstate)) : xstate :=
-  match l with [] => x0 | (c', x) :: r => if c =? c' then x else getx c r end.
+Inductive cell := CB (a d : Z) | CS (d : Z) | CE (t a : Z) | CT (t : Z).
 
-Definition M := state -> option state.
-Definition ret : M := fun s => Some s.
-Definition fail : M := fun _ => None.
-Definition bind (m : M) (f : M) : M := fun s => match m s with Some s' => f s' | None => None end.
-Notation "m ;; f" := (bind m f) (at level 61, right associativity).
-Definition guard (b : bool) : M := fun s => if b then Some s else None.
+Definition cget (c : cell) (b : bals) : Z :=
+  match c with
+  | CB a d => get2 (a, d) (bank b) | CS d => get1 d (supply b)
+  | CE t a => get2 (t, a) (ebal b) | CT t => get1 t (etot b)
+  end.
+Definition cset (c : cell) (v : Z) (b : bals) : bals :=
+  match c with
+  | CB a d => {| bank := set2 (a, d) v (bank b); supply := supply b; ebal := ebal b; etot := etot b; disabled := disabled b |}
+  | CS d => {| bank := bank b; supply := set1 d v (supply b); ebal := ebal b; etot := etot b; disabled := disabled b |}
+  | CE t a => {| bank := bank b; supply := supply b; ebal := set2 (t, a) v (ebal b); etot := etot b; disabled := disabled b |}
+  | CT t => {| bank := bank b; supply := supply b; ebal := ebal b; etot := set1 t v (etot b); disabled := disabled b |}
+  end.
 
-Definition with_bank (f : map2 -> map2) (s : state) : state :=
-  {| bank := f (bank s); supply := supply s; ebal := ebal s; etot := etot s; disabled := disabled s;
-     xs := xs s; dep := dep s; exe := exe s |}.
-Definition with_supply (f : map1 -> map1) (s : state) : state :=
-  {| bank := bank s; supply := f (supply s); ebal := ebal s; etot := etot s; disabled := disabled s;
-     xs := xs s; dep := dep s; exe := exe s |}.
-Definition with_ebal (f : map2 -> map2) (s : state) : state :=
-  {| bank := bank s; supply := supply s; ebal := f (ebal s); etot := etot s; disabled := disabled s;
-     xs := xs s; dep := dep s; exe := exe s |}.
-Definition with_etot (f : map1 -> map1) (s : state) : state :=
-  {| bank := bank s; supply := supply s; ebal := ebal s; etot := f (etot s); disabled := disabled s;
-     xs := xs s; dep := dep s; exe := exe s |}.
-Definition with_disabled (f : map1 -> map1) (s : state) : state :=
-  {| bank := bank s; supply := supply s; ebal := ebal s; etot := etot s; disabled := f (disabled s);
-     xs := xs s; dep := dep s; exe := exe s |}.
-Definition with_x (c : Z) (f : xstate -> xstate) (s : state) : state :=
-  {| bank := bank s; supply := supply s; ebal := ebal s; etot := etot s; disabled := disabled s;
-     xs := (c, f (getx c (xs s))) :: xs s; dep := dep s; exe := exe s |}.
-Definition with_dep (f : map2 -> map2) (s : state) : state :=
-  {| bank := bank s; supply := supply s; ebal := ebal s; etot := etot s; disabled := disabled s;
-     xs := xs s; dep := f (dep s); exe := exe s |}.
-Definition with_exe (f : map2 -> map2) (s : state) : state :=
-  {| bank := bank s; supply := supply s; ebal := ebal s; etot := etot s; disabled := disabled s;
-     xs := xs s; dep := dep s; exe := f (exe s) |}.
+Inductive act :=
+| Add (c : cell) (x : Z)        (* cell += x *)
+| Sub (c : cell) (x : Z)        (* cell -= x, fails if the cell holds less than x *)
+| Chk (ok : bool)               (* fails if false *)
+| ChkEnabled (t : Z).           (* MintingEnabled: fails if the pair is toggled off *)
+Definition prog := list act.
 
-(* ---------- primitive moves (x/bank, FIP20) ---------- *)
-(* every primitive is "add a signed amount to one cell", guarded by sufficiency *)
-Definition bank_add (a d x : Z) : M := fun s =>
-  Some (with_bank (set2 (a, d) (get2 (a, d) (bank s) + x)) s).
-Definition bank_sub (a d x : Z) : M := fun s =>
-  if x <=? get2 (a, d) (bank s) then Some (with_bank (set2 (a, d) (get2 (a, d) (bank s) - x)) s) else None.
-Definition supply_add (d x : Z) : M := fun s =>
-  Some (with_supply (set1 d (get1 d (supply s) + x)) s).
+Definition run_act (a : act) (b : bals) : option bals :=
+  match a with
+  | Add c x => Some (cset c (cget c b + x) b)
+  | Sub c x => if x <=? cget c b then Some (cset c (cget c b - x) b) else None
+  | Chk ok => if ok then Some b else None
+  | ChkEnabled t => if get1 t (disabled b) =? 0 then Some b else None
+  end.
+Fixpoint runB (p : prog) (b : bals) : option bals :=
+  match p with [] => Some b | a :: r => match run_act a b with Some b' => runB r b' | None => None end end.
 
-(* bank SendCoins: subUnlockedCoins then addCoins, sequentially (from = to nets to zero) *)
-Definition send (from to d x : Z) : M := bank_sub from d x ;; bank_add to d x.
-(* MintCoins(module): module balance and supply grow *)
-Definition mint (m d x : Z) : M := bank_add m d x ;; supply_add d x.
-(* BurnCoins(module): fails if the module does not hold x *)
-Definition burn (m d x : Z) : M := bank_sub m d x ;; supply_add d (- x).
-
-Definition ebal_add (t a x : Z) : M := fun s =>
-  Some (with_ebal (set2 (t, a) (get2 (t, a) (ebal s) + x)) s).
-Definition ebal_sub (t a x : Z) : M := fun s =>
-  if x <=? get2 (t, a) (ebal s) then Some (with_ebal (set2 (t, a) (get2 (t, a) (ebal s) - x)) s) else None.
-Definition etot_add (t x : Z) : M := fun s =>
-  Some (with_etot (set1 t (get1 t (etot s) + x)) s).
-
-(* FIP20._mint / _burn / _transfer *)
-Definition erc20_mint (t a x : Z) : M := etot_add t x ;; ebal_add t a x.
-Definition erc20_burn (t a x : Z) : M := ebal_sub t a x ;; etot_add t (- x).
-Definition erc20_transfer (t from to x : Z) : M := ebal_sub t from x ;; ebal_add t to x.
-
-Definition dep_add (t c x : Z) : M := fun s =>
-  Some (with_dep (set2 (t, c) (get2 (t, c) (dep s) + x)) s).
-Definition exe_add (t c x : Z) : M := fun s =>
-  Some (with_exe (set2 (t, c) (get2 (t, c) (exe s) + x)) s).
+(* x/bank: SendCoins = subUnlockedCoins then addCoins (sequential: from = to nets to zero);
+   MintCoins(module): module balance and supply grow; BurnCoins(module): fails if the module lacks x *)
+Definition send (from to d x : Z) : prog := [Sub (CB from d) x; Add (CB to d) x].
+Definition mint (m d x : Z) : prog := [Add (CB m d) x; Add (CS d) x].
+Definition burn (m d x : Z) : prog := [Sub (CB m d) x; Add (CS d) (- x)].
+(* FIP20 _mint / _burn / _transfer *)
+Definition erc20_mint (t a x : Z) : prog := [Add (CT t) x; Add (CE t a) x].
+Definition erc20_burn (t a x : Z) : prog := [Sub (CE t a) x; Add (CT t) (- x)].
+Definition erc20_transfer (t from to x : Z) : prog := [Sub (CE t from) x; Add (CE t to) x].
 
 (* ---------- x/erc20 conversions (msg_server.go) ---------- *)
-Definition pair_enabled (t : token) : M := fun s =>
-  if get1 (t_id t) (disabled s) =? 0 then Some s else None.
-
 (* ConvertCoin: MintingEnabled; ConvertCoinNativeCoin / ConvertCoinNativeERC20 *)
-Definition convert_coin (t : token) (sender receiver x : Z) : M :=
-  pair_enabled t ;;
+Definition convert_coin (t : token) (sender receiver x : Z) : prog :=
+  ChkEnabled (t_id t) ::
   match t_kind t with
-  | KFX => send sender A_ERC20 FX x ;; erc20_mint (t_id t) receiver x ;; send A_ERC20 A_WFX FX x
-  | KMod => send sender A_ERC20 (base_of t) x ;; erc20_mint (t_id t) receiver x
-  | KExt => send sender A_ERC20 (base_of t) x ;; erc20_transfer (t_id t) A_ERC20 receiver x ;;
+  | KFX => send sender A_ERC20 (base_of t) x ++ erc20_mint (t_id t) receiver x ++ send A_ERC20 A_WFX (base_of t) x
+  | KMod => send sender A_ERC20 (base_of t) x ++ erc20_mint (t_id t) receiver x
+  | KExt => send sender A_ERC20 (base_of t) x ++ erc20_transfer (t_id t) A_ERC20 receiver x ++
             burn A_ERC20 (base_of t) x
   end.
 
 (* ConvertERC20: ConvertERC20NativeCoin / ConvertERC20NativeToken *)
-Definition convert_erc20 (t : token) (sender receiver x : Z) : M :=
-  pair_enabled t ;;
+Definition convert_erc20 (t : token) (sender receiver x : Z) : prog :=
+  ChkEnabled (t_id t) ::
   match t_kind t with
-  | KFX => erc20_burn (t_id t) sender x ;; send A_WFX A_ERC20 FX x ;; send A_ERC20 receiver FX x
-  | KMod => erc20_burn (t_id t) sender x ;; send A_ERC20 receiver (base_of t) x
-  | KExt => erc20_transfer (t_id t) sender A_ERC20 x ;; mint A_ERC20 (base_of t) x ;;
+  | KFX => erc20_burn (t_id t) sender x ++ send A_WFX A_ERC20 (base_of t) x ++ send A_ERC20 receiver (base_of t) x
+  | KMod => erc20_burn (t_id t) sender x ++ send A_ERC20 receiver (base_of t) x
+  | KExt => erc20_transfer (t_id t) sender A_ERC20 x ++ mint A_ERC20 (base_of t) x ++
             send A_ERC20 receiver (base_of t) x
   end.
 
 (* ---- the OLDER rule: ConvertDenomToTarget (erc20 keeper) ----
-   which: 0 = base, c in 1..8 = bridge alias of chain c, 9 = IBC alias.
+   rep: 0 = base, c in 1..8 = bridge alias of chain c, 9 = IBC alias.
    GetTargetCoin/ToTargetDenom: target 0 (""/erc20) -> base; chain c -> the alias with that prefix if the
    token has one, else base.  FX has no aliases in its metadata: never converted. *)
-Definition denom_rep (t : token) (which : Z) : Z :=
-  if which =? 0 then base_of t else if which =? 9 then ibc_of t else alias_of t which.
-Definition has_rep (t : token) (which : Z) : bool :=
-  if which =? 0 then true else if which =? 9 then t_ibc t else memZ which (t_chains t).
+Definition denom_rep (t : token) (rep : Z) : Z :=
+  if rep =? 0 then base_of t else if rep =? 9 then ibc_of t else alias_of t rep.
+Definition has_rep (t : token) (rep : Z) : bool :=
+  if rep =? 0 then true else if rep =? 9 then t_ibc t else on_chain t rep.
 Definition has_aliases (t : token) : bool :=
   match t_chains t with [] => t_ibc t | _ => true end.
-
 Definition old_target (t : token) (target : Z) : Z :=
-  if target =? 0 then 0 else if memZ target (t_chains t) then target else 0.
+  if target =? 0 then 0 else if on_chain t target then target else 0.
+(* the representation the holder ends up with *)
+Definition converted_rep (t : token) (src target : Z) : Z :=
+  if is_fx t || negb (has_aliases t) then src else old_target t target.
 
-(* returns through k the representation the holder ends up with *)
-Definition convert_denom_to_target (t : token) (from src target : Z) (x : Z) : M :=
-  if is_fx t || negb (has_aliases t) then ret
+Definition convert_denom_to_target (t : token) (from src target : Z) (x : Z) : prog :=
+  if is_fx t || negb (has_aliases t) then []
   else
     let tg := old_target t target in
-    if src =? tg then ret
+    if src =? tg then []
     else
-      send from A_ERC20 (denom_rep t src) x ;;
+      send from A_ERC20 (denom_rep t src) x ++
       (match t_kind t with
        | KMod => (* convertNativeCoin *)
            if src =? 0 then burn A_ERC20 (base_of t) x
            else if tg =? 0 then mint A_ERC20 (base_of t) x
-           else ret
+           else []
        | _ => (* convertNativeERC20 *)
            if src =? 0 then mint A_ERC20 (denom_rep t tg) x
            else if tg =? 0 then burn A_ERC20 (denom_rep t src) x
-           else ret
-       end) ;;
+           else []
+       end) ++
       send A_ERC20 from (denom_rep t tg) x.
-Definition converted_rep (t : token) (src target : Z) : Z :=
-  if is_fx t || negb (has_aliases t) then src else old_target t target.
 
 (* MsgConvertDenom *)
-Definition msg_convert_denom (t : token) (sender receiver src target x : Z) : M :=
-  guard (has_rep t src) ;;
-  convert_denom_to_target t sender src target x ;;
-  guard (negb (converted_rep t src target =? src)) ;;
-  (if sender =? receiver then ret
-   else send sender A_ERC20 (denom_rep t (converted_rep t src target)) x ;;
+Definition msg_convert_denom (t : token) (sender receiver src target x : Z) : prog :=
+  Chk (has_rep t src) ::
+  convert_denom_to_target t sender src target x ++
+  Chk (negb (converted_rep t src target =? src)) ::
+  (if sender =? receiver then []
+   else send sender A_ERC20 (denom_rep t (converted_rep t src target)) x ++
         send A_ERC20 receiver (denom_rep t (converted_rep t src target)) x).
 
 (* IsOriginOrConvertedDenom on a bridge denom of token t: FX -> true, module-owned alias -> false,
@@ -249,225 +208,284 @@ Definition origin_or_converted (t : token) : bool :=
 
 (* ---------- the NEWER rule: many_to_one.go ---------- *)
 (* DepositBridgeToken on chain c *)
-Definition deposit_bridge_token (t : token) (c holder x : Z) : M :=
+Definition deposit_bridge_token (t : token) (c holder x : Z) : prog :=
   match t_kind t with
-  | KFX => send c holder FX x
-  | KMod => mint c (alias_of t c) x ;; send c holder (alias_of t c) x
-  | KExt => send c holder (alias_of t c) x
+  | KMod => mint (cacc c) (alias_of t c) x ++ send (cacc c) holder (alias_of t c) x
+  | _ => send (cacc c) holder (alias_of t c) x
   end.
 
 (* WithdrawBridgeToken on chain c *)
-Definition withdraw_bridge_token (t : token) (c holder x : Z) : M :=
-  send holder c (alias_of t c) x ;;
+Definition withdraw_bridge_token (t : token) (c holder x : Z) : prog :=
+  send holder (cacc c) (alias_of t c) x ++
   match t_kind t with
-  | KFX => ret
-  | KExt => ret
-  | KMod => burn c (alias_of t c) x
+  | KMod => burn (cacc c) (alias_of t c) x
+  | _ => []
   end.
 
 (* ConversionCoin(holder, coin, base, target) on chain c; to_base = true: bridge denom -> base *)
-Definition conversion_coin (t : token) (c holder x : Z) (to_base : bool) : M :=
-  if is_fx t then ret
-  else
-    let src := if to_base then alias_of t c else base_of t in
-    let tgt := if to_base then base_of t else alias_of t c in
-    send holder c src x ;;
-    if is_ext t then burn c src x ;; mint c tgt x ;; send c holder tgt x
-    else if to_base then mint c tgt x ;; send c holder tgt x
-    else burn c src x ;; send c holder tgt x.
-
-Definition on_chain (t : token) (c : Z) : bool := memZ c (t_chains t).
+Definition conversion_coin (t : token) (c holder x : Z) (to_base : bool) : prog :=
+  match t_kind t with
+  | KFX => []
+  | KExt =>
+      let src := if to_base then alias_of t c else base_of t in
+      let tgt := if to_base then base_of t else alias_of t c in
+      send holder (cacc c) src x ++ burn (cacc c) src x ++ mint (cacc c) tgt x ++ send (cacc c) holder tgt x
+  | KMod =>
+      if to_base then send holder (cacc c) (alias_of t c) x ++ mint (cacc c) (base_of t) x ++ send (cacc c) holder (base_of t) x
+      else send holder (cacc c) (base_of t) x ++ burn (cacc c) (base_of t) x ++ send (cacc c) holder (alias_of t c) x
+  end.
 
 (* BridgeTokenToBaseCoin: the bridge token must exist on chain c *)
-Definition bridge_token_to_base (t : token) (c holder x : Z) : M :=
-  guard (on_chain t c) ;; deposit_bridge_token t c holder x ;; conversion_coin t c holder x true.
+Definition bridge_token_to_base (t : token) (c holder x : Z) : prog :=
+  Chk (on_chain t c) :: deposit_bridge_token t c holder x ++ conversion_coin t c holder x true.
 
 (* BaseCoinToBridgeToken: ManyToOne(base, chain) fails if the token has no alias on c *)
-Definition base_to_bridge_token (t : token) (c holder x : Z) : M :=
-  guard (on_chain t c) ;; conversion_coin t c holder x false ;; withdraw_bridge_token t c holder x.
+Definition base_to_bridge_token (t : token) (c holder x : Z) : prog :=
+  Chk (on_chain t c) :: conversion_coin t c holder x false ++ withdraw_bridge_token t c holder x.
 
 (* BaseCoinToEvm / EvmToBaseCoin: ConvertCoin / ConvertERC20 with sender = receiver = holder *)
-Definition base_to_evm (t : token) (holder x : Z) : M := convert_coin t holder holder x.
-Definition evm_to_base (t : token) (holder x : Z) : M := convert_erc20 t holder holder x.
+Definition base_to_evm (t : token) (holder x : Z) : prog := convert_coin t holder holder x.
+Definition evm_to_base (t : token) (holder x : Z) : prog := convert_erc20 t holder holder x.
 
 (* IBCCoinToBaseCoin / BaseCoinToIBCCoin (holder's voucher <-> base through the transfer module account) *)
-Definition ibc_to_base (t : token) (holder x : Z) : M :=
-  guard (t_ibc t && negb (is_fx t)) ;;
-  send holder A_IBC (ibc_of t) x ;; mint A_IBC (base_of t) x ;; send A_IBC holder (base_of t) x.
-Definition base_to_ibc (t : token) (holder x : Z) : M :=
-  guard (t_ibc t && negb (is_fx t)) ;;
-  send holder A_IBC (base_of t) x ;; burn A_IBC (base_of t) x ;; send A_IBC holder (ibc_of t) x.
+Definition ibc_to_base (t : token) (holder x : Z) : prog :=
+  Chk (t_ibc t && negb (is_fx t)) ::
+  send holder A_IBC (ibc_of t) x ++ mint A_IBC (base_of t) x ++ send A_IBC holder (base_of t) x.
+Definition base_to_ibc (t : token) (holder x : Z) : prog :=
+  Chk (t_ibc t && negb (is_fx t)) ::
+  send holder A_IBC (base_of t) x ++ burn A_IBC (base_of t) x ++ send A_IBC holder (ibc_of t) x.
 
-(* ---------- pool / batch / bridge-call records (only as far as value moves) ---------- *)
-Definition upd_x (c : Z) (f : xstate -> xstate) : M := fun s => Some (with_x c f s).
+(* handlerOriginToken: msg.value already moved sender -> precompile by the EVM, then precompile -> evm module -> sender *)
+Definition handler_origin_token (sender x : Z) : prog :=
+  send sender A_PRE FX x ++ send A_PRE A_EVM FX x ++ send A_EVM sender FX x.
 
-Definition x_set_pool (l : list ptx) (x : xstate) : xstate :=
-  {| x_pool := l; x_batches := x_batches x; x_calls := x_calls x; x_txid := x_txid x; x_batchid := x_batchid x;
-     x_callid := x_callid x; x_height := x_height x; x_rel := x_rel x; x_frommsg := x_frommsg x |}.
-Definition x_set_batches (l : list batch) (x : xstate) : xstate :=
-  {| x_pool := x_pool x; x_batches := l; x_calls := x_calls x; x_txid := x_txid x; x_batchid := x_batchid x;
-     x_callid := x_callid x; x_height := x_height x; x_rel := x_rel x; x_frommsg := x_frommsg x |}.
-Definition x_set_calls (l : list bcall) (x : xstate) : xstate :=
-  {| x_pool := x_pool x; x_batches := x_batches x; x_calls := l; x_txid := x_txid x; x_batchid := x_batchid x;
-     x_callid := x_callid x; x_height := x_height x; x_rel := x_rel x; x_frommsg := x_frommsg x |}.
-Definition x_set_txid (n : Z) (x : xstate) : xstate :=
-  {| x_pool := x_pool x; x_batches := x_batches x; x_calls := x_calls x; x_txid := n; x_batchid := x_batchid x;
-     x_callid := x_callid x; x_height := x_height x; x_rel := x_rel x; x_frommsg := x_frommsg x |}.
-Definition x_set_batchid (n : Z) (x : xstate) : xstate :=
-  {| x_pool := x_pool x; x_batches := x_batches x; x_calls := x_calls x; x_txid := x_txid x; x_batchid := n;
-     x_callid := x_callid x; x_height := x_height x; x_rel := x_rel x; x_frommsg := x_frommsg x |}.
-Definition x_set_callid (n : Z) (x : xstate) : xstate :=
-  {| x_pool := x_pool x; x_batches := x_batches x; x_calls := x_calls x; x_txid := x_txid x; x_batchid := x_batchid x;
-     x_callid := n; x_height := x_height x; x_rel := x_rel x; x_frommsg := x_frommsg x |}.
-Definition x_set_height (n : Z) (x : xstate) : xstate :=
-  {| x_pool := x_pool x; x_batches := x_batches x; x_calls := x_calls x; x_txid := x_txid x; x_batchid := x_batchid x;
-     x_callid := x_callid x; x_height := n; x_rel := x_rel x; x_frommsg := x_frommsg x |}.
-Definition x_set_rel (l : list Z) (x : xstate) : xstate :=
-  {| x_pool := x_pool x; x_batches := x_batches x; x_calls := x_calls x; x_txid := x_txid x; x_batchid := x_batchid x;
-     x_callid := x_callid x; x_height := x_height x; x_rel := l; x_frommsg := x_frommsg x |}.
-Definition x_set_frommsg (l : list Z) (x : xstate) : xstate :=
-  {| x_pool := x_pool x; x_batches := x_batches x; x_calls := x_calls x; x_txid := x_txid x; x_batchid := x_batchid x;
-     x_callid := x_callid x; x_height := x_height x; x_rel := x_rel x; x_frommsg := l |}.
+(* handlerERC20Token: transferFrom(sender -> erc20 module) and burn through the RUNNING EVM, then coins to sender *)
+Definition handler_erc20_token (t : token) (sender x : Z) : prog :=
+  erc20_transfer (t_id t) sender A_ERC20 x ++
+  (match t_kind t with
+   | KFX => erc20_burn (t_id t) A_ERC20 x ++ send A_WFX A_ERC20 (base_of t) x
+   | KMod => erc20_burn (t_id t) A_ERC20 x
+   | KExt => mint A_ERC20 (base_of t) x
+   end) ++
+  send A_ERC20 sender (base_of t) x.
 
-Definition X (c : Z) (s : state) : xstate := getx c (xs s).
+(* a prog per (token id, amount) of a list; an unknown token id fails *)
+Fixpoint each_tok (g : cfg) (f : token -> Z -> prog) (l : list (Z * Z)) : prog :=
+  match l with
+  | [] => []
+  | (t, x) :: r => match find_tok g t with None => [Chk false] | Some tk => f tk x ++ each_tok g f r end
+  end.
 
-Fixpoint find_ptx (id : Z) (l : list ptx) : option ptx :=
-  match l with [] => None | p :: r => if p_id p =? id then Some p else find_ptx id r end.
-Definition del_ptx (id : Z) (l : list ptx) : list ptx := filter (fun p => negb (p_id p =? id)) l.
-Definition remZ (x : Z) (l : list Z) : list Z := filter (fun y => negb (y =? x)) l.
+(* HandleOutgoingBridgeCallRefund — the OLDER rule:
+   bridgeCallTransferCoins: mint (unless origin/converted) all, unlock all to refund, ConvertDenomToTarget each to base;
+   then, unless the call came from MsgBridgeCall, bridgeCallTransferTokens: ConvertCoin each (FX stays a coin) *)
+Definition refund_mint (c : Z) (t : token) (x : Z) : prog :=
+  Chk (on_chain t c) :: (if origin_or_converted t then [] else mint (cacc c) (alias_of t c) x).
+Definition refund_unlock (c refund : Z) (t : token) (x : Z) : prog := send (cacc c) refund (alias_of t c) x.
+Definition refund_to_base (c refund : Z) (t : token) (x : Z) : prog := convert_denom_to_target t refund c 0 x.
+Definition refund_to_evm (refund : Z) (t : token) (x : Z) : prog :=
+  if is_fx t then [] else convert_coin t refund refund x.
+Definition pos_toks (l : list (Z * Z)) : list (Z * Z) := filter (fun p => 0 <? snd p) l.
+
+Definition bridge_call_refund_prog (g : cfg) (c refund : Z) (toks : list (Z * Z)) (from_msg : bool) : prog :=
+  each_tok g (refund_mint c) (pos_toks toks) ++
+  each_tok g (refund_unlock c refund) (pos_toks toks) ++
+  each_tok g (refund_to_base c refund) (pos_toks toks) ++
+  (if from_msg then [] else each_tok g (refund_to_evm refund) (pos_toks toks)).
+
+(* ---------- records (only as far as value moves) ---------- *)
+Record ptx := { p_chain : Z; p_id : Z; p_sender : Z; p_tok : Z; p_amt : Z; p_fee : Z }.
+Record batch := { b_chain : Z; b_nonce : Z; b_tok : Z; b_txs : list ptx; b_timeout : Z }.
+Record bcall := { c_chain : Z; c_nonce : Z; c_refund : Z; c_toks : list (Z * Z); c_timeout : Z }.
+
+Record recs := {
+  pool : list ptx;            (* unbatched transfers, all chains *)
+  batches : list batch;
+  calls : list bcall;         (* outgoing bridge calls, ascending nonce per chain *)
+  txid : map1; batchid : map1; callid : map1;   (* chain -> last id handed out *)
+  height : map1;              (* chain -> last observed external block height *)
+  rel : list (Z * Z);         (* (chain, tx id) with an erc20 OutgoingTransferRelation *)
+  frommsg : list (Z * Z)      (* (chain, nonce) of bridge calls created by MsgBridgeCall *)
+}.
+
+(* ghost counters: what was deposited by executed inbound events / observed as executed on the external side *)
+Record ghost := {
+  dept : map1; exet : map1;   (* per token *)
+  depc : map2; exec : map2    (* per (token, chain); chain 9 = IBC *)
+}.
+
+Record state := { sb : bals; sr : recs; sg : ghost }.
+
+Definition M := state -> option state.
+Definition ret : M := fun s => Some s.
+Definition fail : M := fun _ => None.
+Definition bind (m : M) (f : M) : M := fun s => match m s with Some s' => f s' | None => None end.
+Notation "m ;; f" := (bind m f) (at level 61, right associativity).
+Definition guard (b : bool) : M := fun s => if b then Some s else None.
+
+Definition doB (p : prog) : M := fun s =>
+  match runB p (sb s) with Some b => Some {| sb := b; sr := sr s; sg := sg s |} | None => None end.
+Definition updR (f : recs -> recs) : M := fun s => Some {| sb := sb s; sr := f (sr s); sg := sg s |}.
+Definition updG (f : ghost -> ghost) : M := fun s => Some {| sb := sb s; sr := sr s; sg := f (sg s) |}.
+
+Definition set_pool (l : list ptx) (r : recs) : recs :=
+  {| pool := l; batches := batches r; calls := calls r; txid := txid r; batchid := batchid r; callid := callid r;
+     height := height r; rel := rel r; frommsg := frommsg r |}.
+Definition set_batches (l : list batch) (r : recs) : recs :=
+  {| pool := pool r; batches := l; calls := calls r; txid := txid r; batchid := batchid r; callid := callid r;
+     height := height r; rel := rel r; frommsg := frommsg r |}.
+Definition set_calls (l : list bcall) (r : recs) : recs :=
+  {| pool := pool r; batches := batches r; calls := l; txid := txid r; batchid := batchid r; callid := callid r;
+     height := height r; rel := rel r; frommsg := frommsg r |}.
+Definition set_txid (m : map1) (r : recs) : recs :=
+  {| pool := pool r; batches := batches r; calls := calls r; txid := m; batchid := batchid r; callid := callid r;
+     height := height r; rel := rel r; frommsg := frommsg r |}.
+Definition set_batchid (m : map1) (r : recs) : recs :=
+  {| pool := pool r; batches := batches r; calls := calls r; txid := txid r; batchid := m; callid := callid r;
+     height := height r; rel := rel r; frommsg := frommsg r |}.
+Definition set_callid (m : map1) (r : recs) : recs :=
+  {| pool := pool r; batches := batches r; calls := calls r; txid := txid r; batchid := batchid r; callid := m;
+     height := height r; rel := rel r; frommsg := frommsg r |}.
+Definition set_height (m : map1) (r : recs) : recs :=
+  {| pool := pool r; batches := batches r; calls := calls r; txid := txid r; batchid := batchid r; callid := callid r;
+     height := m; rel := rel r; frommsg := frommsg r |}.
+Definition set_rel (l : list (Z * Z)) (r : recs) : recs :=
+  {| pool := pool r; batches := batches r; calls := calls r; txid := txid r; batchid := batchid r; callid := callid r;
+     height := height r; rel := l; frommsg := frommsg r |}.
+Definition set_frommsg (l : list (Z * Z)) (r : recs) : recs :=
+  {| pool := pool r; batches := batches r; calls := calls r; txid := txid r; batchid := batchid r; callid := callid r;
+     height := height r; rel := rel r; frommsg := l |}.
+
+Definition dep_add (t c x : Z) : M := updG (fun g =>
+  {| dept := set1 t (get1 t (dept g) + x) (dept g); exet := exet g;
+     depc := set2 (t, c) (get2 (t, c) (depc g) + x) (depc g); exec := exec g |}).
+Definition exe_add (t c x : Z) : M := updG (fun g =>
+  {| dept := dept g; exet := set1 t (get1 t (exet g) + x) (exet g);
+     depc := depc g; exec := set2 (t, c) (get2 (t, c) (exec g) + x) (exec g) |}).
+
+Definition is_ptx (c id : Z) (p : ptx) : bool := (p_chain p =? c) && (p_id p =? id).
+Fixpoint find_ptx (c id : Z) (l : list ptx) : option ptx :=
+  match l with [] => None | p :: r => if is_ptx c id p then Some p else find_ptx c id r end.
+(* removes the first match (the store key (fee, id) is unique) *)
+Fixpoint del_ptx (c id : Z) (l : list ptx) : list ptx :=
+  match l with [] => [] | p :: r => if is_ptx c id p then r else p :: del_ptx c id r end.
+Definition rem2 (x : Z * Z) (l : list (Z * Z)) : list (Z * Z) := filter (fun y => negb (key_eqb y x)) l.
 
 (* AddToOutgoingPool: autoIncrementID, BaseCoinToBridgeToken(amount+fee), AddUnbatchedTx *)
 Definition add_to_outgoing_pool (t : token) (c sender amt fee : Z) : M := fun s =>
-  let id := x_txid (X c s) + 1 in
-  (upd_x c (x_set_txid id) ;;
-   base_to_bridge_token t c sender (amt + fee) ;;
-   upd_x c (fun x => x_set_pool ({| p_id := id; p_sender := sender; p_tok := t_id t; p_amt := amt; p_fee := fee |}
-                                   :: x_pool x) x)) s.
+  let id := get1 c (txid (sr s)) + 1 in
+  (doB (base_to_bridge_token t c sender (amt + fee)) ;;
+   updR (fun r => set_txid (set1 c id (txid r))
+                  (set_pool ({| p_chain := c; p_id := id; p_sender := sender; p_tok := t_id t; p_amt := amt; p_fee := fee |}
+                             :: pool r) r))) s.
 
 (* handleRemoveFromOutgoingPoolAndRefund + handleCancelRefund + handleOutgoingTransferRelation *)
 Definition cancel_send (g : cfg) (c sender id : Z) : M := fun s =>
-  match find_ptx id (x_pool (X c s)) with
+  match find_ptx c id (pool (sr s)) with
   | None => None
   | Some p =>
     match find_tok g (p_tok p) with
     | None => None
     | Some t =>
       (guard (p_sender p =? sender) ;;
-       upd_x c (fun x => x_set_pool (del_ptx id (x_pool x)) x) ;;
-       bridge_token_to_base t c sender (p_amt p + p_fee p) ;;
-       (if memZ id (x_rel (X c s))
-        then convert_coin t sender sender (p_amt p + p_fee p) ;; upd_x c (fun x => x_set_rel (remZ id (x_rel x)) x)
+       updR (fun r => set_pool (del_ptx c id (pool r)) r) ;;
+       doB (bridge_token_to_base t c sender (p_amt p + p_fee p)) ;;
+       (if mem2 (c, id) (rel (sr s))
+        then doB (convert_coin t sender sender (p_amt p + p_fee p)) ;;
+             updR (fun r => set_rel (rem2 (c, id) (rel r)) r)
         else ret)) s
     end
   end.
 
-(* AddUnbatchedTxBridgeFee: the OLDER rule; the fee coin is a bridge denom (rep = chain alias) *)
-Definition add_bridge_fee (g : cfg) (t : token) (c sender id x : Z) : M := fun s =>
-  match find_ptx id (x_pool (X c s)) with
+(* AddUnbatchedTxBridgeFee: the OLDER rule; the fee coin is the bridge denom of chain c *)
+Definition add_bridge_fee_prog (t : token) (c sender x : Z) : prog :=
+  send sender (cacc c) (alias_of t c) x ++ (if origin_or_converted t then [] else burn (cacc c) (alias_of t c) x).
+Definition add_bridge_fee (t : token) (c sender id x : Z) : M := fun s =>
+  match find_ptx c id (pool (sr s)) with
   | None => None
   | Some p =>
     (guard (on_chain t c) ;; guard (p_tok p =? t_id t) ;;
-     send sender c (alias_of t c) x ;;
-     (if origin_or_converted t then ret else burn c (alias_of t c) x) ;;
-     upd_x c (fun xx => x_set_pool ({| p_id := p_id p; p_sender := p_sender p; p_tok := p_tok p; p_amt := p_amt p;
-                                       p_fee := p_fee p + x |} :: del_ptx id (x_pool xx)) xx)) s
+     doB (add_bridge_fee_prog t c sender x) ;;
+     updR (fun r => set_pool ({| p_chain := c; p_id := p_id p; p_sender := p_sender p; p_tok := p_tok p; p_amt := p_amt p;
+                                 p_fee := p_fee p + x |} :: del_ptx c id (pool r)) r)) s
   end.
 
 Definition sumZ (l : list Z) : Z := fold_right Z.add 0 l.
 Definition fees_of (l : list ptx) : Z := sumZ (map p_fee l).
 Definition total_of (l : list ptx) : Z := sumZ (map (fun p => p_amt p + p_fee p) l).
-Definition of_tok (t : Z) (l : list ptx) : list ptx := filter (fun p => p_tok p =? t) l.
-Definition not_tok (t : Z) (l : list ptx) : list ptx := filter (fun p => negb (p_tok p =? t)) l.
+Definition sel_tx (c t : Z) (p : ptx) : bool := (p_chain p =? c) && (p_tok p =? t).
 
-(* GetLastOutgoingBatchByToken: highest nonce for the token *)
-Fixpoint last_batch (t : Z) (l : list batch) (best : option batch) : option batch :=
+(* GetLastOutgoingBatchByToken: highest nonce for the token on the chain *)
+Fixpoint last_batch (c t : Z) (l : list batch) (best : option batch) : option batch :=
   match l with
   | [] => best
   | b :: r =>
-    if b_tok b =? t
+    if (b_chain b =? c) && (b_tok b =? t)
     then match best with
-         | Some b0 => if b_nonce b0 <? b_nonce b then last_batch t r (Some b) else last_batch t r best
-         | None => last_batch t r (Some b)
+         | Some b0 => if b_nonce b0 <? b_nonce b then last_batch c t r (Some b) else last_batch c t r best
+         | None => last_batch c t r (Some b)
          end
-    else last_batch t r best
+    else last_batch c t r best
   end.
 
 (* BuildOutgoingTxBatch with maxElements above the pool size, baseFee 0, minimumFee 1: takes every
    unbatched tx of the token; `timeout` is the value the real code computed (read back by the harness) *)
 Definition request_batch (t : token) (c timeout : Z) : M := fun s =>
-  let x := X c s in
-  let sel := of_tok (t_id t) (x_pool x) in
+  let r := sr s in
+  let sel := filter (sel_tx c (t_id t)) (pool r) in
   (guard (on_chain t c) ;;
-   guard (match last_batch (t_id t) (x_batches x) None with
+   guard (match last_batch c (t_id t) (batches r) None with
           | Some b => negb (fees_of sel <? fees_of (b_txs b)) | None => true end) ;;
    guard (match sel with [] => false | _ => true end) ;;
    guard (1 <=? fees_of sel) ;;
-   guard (negb (x_height x =? 0)) ;;
-   upd_x c (fun x => x_set_batchid (x_batchid x + 1)
-                     (x_set_batches ({| b_nonce := x_batchid x + 1; b_tok := t_id t; b_txs := sel;
-                                        b_timeout := timeout |} :: x_batches x)
-                     (x_set_pool (not_tok (t_id t) (x_pool x)) x)))) s.
+   guard (negb (get1 c (height r) =? 0)) ;;
+   updR (fun r => set_batchid (set1 c (get1 c (batchid r) + 1) (batchid r))
+                  (set_batches ({| b_chain := c; b_nonce := get1 c (batchid r) + 1; b_tok := t_id t; b_txs := sel;
+                                   b_timeout := timeout |} :: batches r)
+                  (set_pool (filter (fun p => negb (sel_tx c (t_id t) p)) (pool r)) r)))) s.
 
-Fixpoint find_batch (t n : Z) (l : list batch) : option batch :=
-  match l with [] => None | b :: r => if (b_tok b =? t) && (b_nonce b =? n) then Some b else find_batch t n r end.
+Definition is_batch (c t n : Z) (b : batch) : bool := (b_chain b =? c) && (b_tok b =? t) && (b_nonce b =? n).
+Fixpoint find_batch (c t n : Z) (l : list batch) : option batch :=
+  match l with [] => None | b :: r => if is_batch c t n b then Some b else find_batch c t n r end.
+Fixpoint del_batch (c t n : Z) (l : list batch) : list batch :=
+  match l with [] => [] | b :: r => if is_batch c t n b then r else b :: del_batch c t n r end.
 
 (* CancelOutgoingTxBatch for every batch selected by sel: txs back to the pool, batch deleted *)
-Definition cancel_batches (sel : batch -> bool) (x : xstate) : xstate :=
-  x_set_batches (filter (fun b => negb (sel b)) (x_batches x))
-    (x_set_pool (flat_map b_txs (filter sel (x_batches x)) ++ x_pool x) x).
+Definition cancel_batches (sel : batch -> bool) (r : recs) : recs :=
+  set_batches (filter (fun b => negb (sel b)) (batches r))
+    (set_pool (flat_map b_txs (filter sel (batches r)) ++ pool r) r).
 
 (* OutgoingTxBatchExecuted: earlier batches of the token cancelled, batch deleted, relations dropped;
    the batch's value is now observed as executed *)
 Definition batch_executed (t : token) (c n : Z) : M := fun s =>
-  match find_batch (t_id t) n (x_batches (X c s)) with
+  match find_batch c (t_id t) n (batches (sr s)) with
   | None => None  (* panic: unknown batch *)
   | Some b =>
-    (upd_x c (cancel_batches (fun b' => (b_tok b' =? t_id t) && (b_nonce b' <? n))) ;;
-     upd_x c (fun x => x_set_batches (filter (fun b' => negb ((b_tok b' =? t_id t) && (b_nonce b' =? n))) (x_batches x)) x) ;;
-     upd_x c (fun x => x_set_rel (filter (fun id => negb (memZ id (map p_id (b_txs b)))) (x_rel x)) x) ;;
+    (updR (fun r => set_batches (del_batch c (t_id t) n (batches r)) r) ;;
+     updR (cancel_batches (fun b' => (b_chain b' =? c) && (b_tok b' =? t_id t) && (b_nonce b' <? n))) ;;
+     updR (fun r => set_rel (filter (fun k => negb ((fst k =? c) && memZ (snd k) (map p_id (b_txs b)))) (rel r)) r) ;;
      exe_add (t_id t) c (total_of (b_txs b))) s
   end.
 
 (* AddOutgoingBridgeCall: BaseCoinToBridgeToken per coin from `sender`, record with the refund address *)
-Fixpoint each_tok (g : cfg) (f : token -> Z -> M) (l : list (Z * Z)) : M :=
-  match l with
-  | [] => ret
-  | (t, x) :: r => match find_tok g t with None => fail | Some tk => f tk x ;; each_tok g f r end
-  end.
-
 Definition add_outgoing_bridge_call (g : cfg) (c sender refund : Z) (toks : list (Z * Z)) (timeout : Z) : M := fun s =>
-  (each_tok g (fun t x => base_to_bridge_token t c sender x) toks ;;
-   guard (negb (x_height (X c s) =? 0)) ;;
-   upd_x c (fun x => x_set_callid (x_callid x + 1)
-                     (x_set_calls (x_calls x ++ [{| c_nonce := x_callid x + 1; c_refund := refund; c_toks := toks;
-                                                   c_timeout := timeout |}]) x))) s.
+  (doB (each_tok g (fun t x => base_to_bridge_token t c sender x) toks) ;;
+   guard (negb (get1 c (height (sr s)) =? 0)) ;;
+   updR (fun r => set_callid (set1 c (get1 c (callid r) + 1) (callid r))
+                  (set_calls (calls r ++ [{| c_chain := c; c_nonce := get1 c (callid r) + 1; c_refund := refund;
+                                             c_toks := toks; c_timeout := timeout |}]) r))) s.
 
-(* HandleOutgoingBridgeCallRefund — the OLDER rule:
-   bridgeCallTransferCoins: mint (unless origin/converted) all, unlock all to refund, ConvertDenomToTarget each to base;
-   then, unless the call came from MsgBridgeCall, bridgeCallTransferTokens: ConvertCoin each (FX stays a coin) *)
-Definition refund_mint (c : Z) (t : token) (x : Z) : M :=
-  if origin_or_converted t then ret else mint c (alias_of t c) x.
-Definition refund_unlock (c refund : Z) (t : token) (x : Z) : M := send c refund (alias_of t c) x.
-Definition refund_to_base (c refund : Z) (t : token) (x : Z) : M := convert_denom_to_target t refund c 0 x.
-Definition refund_to_evm (refund : Z) (t : token) (x : Z) : M :=
-  if is_fx t then ret else convert_coin t refund refund x.
+Definition is_call (c n : Z) (b : bcall) : bool := (c_chain b =? c) && (c_nonce b =? n).
+Fixpoint find_call (c n : Z) (l : list bcall) : option bcall :=
+  match l with [] => None | b :: r => if is_call c n b then Some b else find_call c n r end.
+Fixpoint del_call_l (c n : Z) (l : list bcall) : list bcall :=
+  match l with [] => [] | b :: r => if is_call c n b then r else b :: del_call_l c n r end.
 
-Definition pos_toks (l : list (Z * Z)) : list (Z * Z) := filter (fun p => 0 <? snd p) l.
-
-Definition bridge_call_refund (g : cfg) (c : Z) (b : bcall) : M := fun s =>
-  (guard (forallb (fun p => match find_tok g (fst p) with Some t => on_chain t c | None => false end) (c_toks b)) ;;
-   each_tok g (refund_mint c) (pos_toks (c_toks b)) ;;
-   each_tok g (refund_unlock c (c_refund b)) (pos_toks (c_toks b)) ;;
-   each_tok g (refund_to_base c (c_refund b)) (pos_toks (c_toks b)) ;;
-   (if memZ (c_nonce b) (x_frommsg (X c s)) then ret
-    else each_tok g (refund_to_evm (c_refund b)) (pos_toks (c_toks b)))) s.
+Definition bridge_call_refund (g : cfg) (b : bcall) : M := fun s =>
+  doB (bridge_call_refund_prog g (c_chain b) (c_refund b) (c_toks b) (mem2 (c_chain b, c_nonce b) (frommsg (sr s)))) s.
 
 Definition del_call (c n : Z) : M :=
-  upd_x c (fun x => x_set_frommsg (remZ n (x_frommsg x))
-                    (x_set_calls (filter (fun b => negb (c_nonce b =? n)) (x_calls x)) x)).
-
-Fixpoint find_call (n : Z) (l : list bcall) : option bcall :=
-  match l with [] => None | b :: r => if c_nonce b =? n then Some b else find_call n r end.
+  updR (fun r => set_frommsg (rem2 (c, n) (frommsg r)) (set_calls (del_call_l c n (calls r)) r)).
 
 Fixpoint each_exe (c : Z) (l : list (Z * Z)) : M :=
   match l with [] => ret | (t, x) :: r => exe_add t c x ;; each_exe c r end.
@@ -476,79 +494,75 @@ Fixpoint each_dep (c : Z) (l : list (Z * Z)) : M :=
 
 (* BridgeCallResultHandler *)
 Definition bridge_call_result (g : cfg) (c n : Z) (success : bool) : M := fun s =>
-  match find_call n (x_calls (X c s)) with
+  match find_call c n (calls (sr s)) with
   | None => None  (* panic *)
   | Some b =>
-    ((if success then each_exe c (c_toks b) else bridge_call_refund g c b) ;; del_call c n) s
+    ((if success then each_exe c (c_toks b) else bridge_call_refund g b) ;; del_call c n) s
   end.
 
-(* cleanupTimedOutBatches; cleanupTimeOutBridgeCall (ascending nonce, stops at the first live one) *)
+(* cleanupTimedOutBatches *)
 Definition cleanup_batches (c : Z) : M := fun s =>
-  upd_x c (cancel_batches (fun b => b_timeout b <? x_height (X c s))) s.
+  updR (cancel_batches (fun b => (b_chain b =? c) && (b_timeout b <? get1 c (height (sr s))))) s.
 
-Fixpoint cleanup_calls (g : cfg) (c h : Z) (l : list bcall) : M :=
+(* cleanupTimeOutBridgeCall iterates the chain's calls in ascending nonce order, refunds and deletes each one whose
+   timeout has been reached and stops at the first live one: split the list positionally, refund, then drop *)
+Fixpoint timed_out (c h : Z) (l : list bcall) : list bcall * list bcall :=
   match l with
-  | [] => ret
-  | b :: r => if h <? c_timeout b then ret
-              else bridge_call_refund g c b ;; del_call c (c_nonce b) ;; cleanup_calls g c h r
+  | [] => ([], [])
+  | b :: r =>
+    if negb (c_chain b =? c) then let (x, y) := timed_out c h r in (x, b :: y)
+    else if h <? c_timeout b then ([], l)
+    else let (x, y) := timed_out c h r in (b :: x, y)
   end.
+Fixpoint each_refund (g : cfg) (l : list bcall) : M :=
+  match l with [] => ret | b :: r => bridge_call_refund g b ;; each_refund g r end.
+Definition cleanup_calls (g : cfg) (c h : Z) : M := fun s =>
+  let (gone, rest) := timed_out c h (calls (sr s)) in
+  (each_refund g gone ;;
+   updR (fun r => set_frommsg (filter (fun k => negb (mem2 k (map (fun b => (c_chain b, c_nonce b)) gone))) (frommsg r))
+                  (set_calls rest r))) s.
 
 (* an observed claim: height recorded, handler, then the two clean-ups (TryAttestation) *)
 Definition observe (g : cfg) (c h : Z) (handler : M) : M :=
-  upd_x c (x_set_height h) ;; handler ;; cleanup_batches c ;;
-  (fun s => cleanup_calls g c h (x_calls (X c s)) s).
+  updR (fun r => set_height (set1 c h (height r)) r) ;; handler ;; cleanup_batches c ;; cleanup_calls g c h.
 
 (* SendToFxExecuted: target 0 = none, 1 = erc20 *)
 Definition send_to_fx (t : token) (c receiver x target : Z) : M :=
-  bridge_token_to_base t c receiver x ;; dep_add (t_id t) c x ;;
-  (if target =? 1 then base_to_evm t receiver x else ret).
+  doB (bridge_token_to_base t c receiver x) ;; dep_add (t_id t) c x ;;
+  (if target =? 1 then doB (base_to_evm t receiver x) else ret).
 
 (* BridgeCallHandler: deposit to the receiver, BridgeCallEvm in a cache branch (ConvertCoin each to the receiver,
    then the EVM call whose outcome evm_ok is known from the kind of `to`); on failure BridgeCallFailedRefund
-   = AddOutgoingBridgeCall FROM THE REFUND ADDRESS.  toks are sorted by denom and merged (sdk.Coins). *)
+   = AddOutgoingBridgeCall FROM THE REFUND ADDRESS. *)
 Definition bridge_call_in (g : cfg) (c receiver refund : Z) (toks : list (Z * Z)) (evm_ok : bool) (timeout : Z) : M :=
-  each_tok g (fun t x => bridge_token_to_base t c receiver x) toks ;;
+  doB (each_tok g (fun t x => bridge_token_to_base t c receiver x) toks) ;;
   each_dep c toks ;;
   (fun s =>
-     match (if evm_ok then each_tok g (fun t x => base_to_evm t receiver x) toks s else None) with
+     match (if evm_ok then doB (each_tok g (fun t x => base_to_evm t receiver x) toks) s else None) with
      | Some s' => Some s'
      | None => add_outgoing_bridge_call g c refund refund toks timeout s
      end).
 
 (* ---------- precompile entry points called by an externally-owned account ---------- *)
-(* handlerOriginToken: msg.value already moved sender -> precompile by the EVM, then precompile -> evm module -> sender *)
-Definition handler_origin_token (sender x : Z) : M :=
-  send sender A_PRE FX x ;; send A_PRE A_EVM FX x ;; send A_EVM sender FX x.
-
-(* handlerERC20Token: transferFrom(sender -> erc20 module) and burn through the RUNNING EVM, then coins to sender *)
-Definition handler_erc20_token (t : token) (sender x : Z) : M :=
-  erc20_transfer (t_id t) sender A_ERC20 x ;;
-  (match t_kind t with
-   | KFX => erc20_burn (t_id t) A_ERC20 x ;; send A_WFX A_ERC20 FX x
-   | KMod => erc20_burn (t_id t) A_ERC20 x
-   | KExt => mint A_ERC20 (base_of t) x
-   end) ;;
-  send A_ERC20 sender (base_of t) x.
-
 (* crossChain(token, ..., amount, fee, target=chain c); native = msg.value path (FX coin) *)
-Definition pre_cross_chain (t : token) (c sender amt fee : Z) (native : bool) : M := fun s =>
-  ((if native then guard (is_fx t) ;; handler_origin_token sender (amt + fee)
-    else handler_erc20_token t sender (amt + fee)) ;;
-   add_to_outgoing_pool t c sender amt fee ;;
-   (if native then ret else upd_x c (fun x => x_set_rel ((x_txid x) :: x_rel x) x))) s.
+Definition pre_cross_chain (t : token) (c sender amt fee : Z) (native : bool) : M :=
+  (if native then guard (is_fx t) ;; doB (handler_origin_token sender (amt + fee))
+   else doB (handler_erc20_token t sender (amt + fee))) ;;
+  add_to_outgoing_pool t c sender amt fee ;;
+  (if native then ret else updR (fun r => set_rel ((c, get1 c (txid r)) :: rel r) r)).
 
 (* bridgeCall(dstChain c, refund, tokens, amounts, ...) with msg.value = value *)
 Definition pre_bridge_call (g : cfg) (c sender refund value : Z) (toks : list (Z * Z)) (timeout : Z) : M :=
-  (if 0 <? value then handler_origin_token sender value else ret) ;;
-  each_tok g (fun t x => evm_to_base t sender x) toks ;;
-  add_outgoing_bridge_call g c sender refund ((if 0 <? value then [(FX, value)] else []) ++ toks) timeout.
+  (if 0 <? value then doB (handler_origin_token sender value) else ret) ;;
+  doB (each_tok g (fun t x => evm_to_base t sender x) toks) ;;
+  add_outgoing_bridge_call g c sender refund ((if 0 <? value then [(0, value)] else []) ++ toks) timeout.
 
 (* increaseBridgeFee(chain c, txid, token, fee): handler*Token, ConvertDenomToTarget (OLDER rule), AddUnbatchedTxBridgeFee *)
-Definition pre_increase_fee (g : cfg) (t : token) (c sender id x : Z) (native : bool) : M :=
-  (if native then guard (is_fx t) ;; handler_origin_token sender x else handler_erc20_token t sender x) ;;
-  convert_denom_to_target t sender 0 c x ;;
+Definition pre_increase_fee (t : token) (c sender id x : Z) (native : bool) : M :=
+  (if native then guard (is_fx t) ;; doB (handler_origin_token sender x) else doB (handler_erc20_token t sender x)) ;;
+  doB (convert_denom_to_target t sender 0 c x) ;;
   guard (is_fx t || (converted_rep t 0 c =? c)) ;;
-  add_bridge_fee g t c sender id x.
+  add_bridge_fee t c sender id x.
 
 (* ---------- operations ---------- *)
 Inductive op :=
@@ -581,39 +595,43 @@ Inductive op :=
 Definition with_tok (g : cfg) (t : Z) (f : token -> M) : M :=
   match find_tok g t with Some tk => f tk | None => fail end.
 
-Definition is_module (a : Z) : bool := (1 <=? a) && (a <=? 24).
+Definition toggle (t : Z) : M := fun s =>
+  let b := sb s in
+  Some {| sb := {| bank := bank b; supply := supply b; ebal := ebal b; etot := etot b;
+                   disabled := set1 t (1 - get1 t (disabled b)) (disabled b) |};
+          sr := sr s; sg := sg s |}.
 
 Definition run (g : cfg) (o : op) : M :=
   match o with
   | OSendToFx c t r x tg => with_tok g t (fun tk => send_to_fx tk c r x tg)
   | OSendToExternal c t a amt fee => with_tok g t (fun tk => add_to_outgoing_pool tk c a amt fee)
   | OCancel c a id => cancel_send g c a id
-  | OIncreaseFee c t a id x => with_tok g t (fun tk => add_bridge_fee g tk c a id x)
+  | OIncreaseFee c t a id x => with_tok g t (fun tk => add_bridge_fee tk c a id x)
   | ORequestBatch c t to => with_tok g t (fun tk => request_batch tk c to)
   | OObserve c h => observe g c h ret
   | OBatchExecuted c h t n => with_tok g t (fun tk => observe g c h (batch_executed tk c n))
   | OBridgeCallMsg c a r toks to =>
       add_outgoing_bridge_call g c a r toks to ;;
-      upd_x c (fun x => x_set_frommsg (x_callid x :: x_frommsg x) x)
+      updR (fun r => set_frommsg ((c, get1 c (callid r)) :: frommsg r) r)
   | OBridgeCallResult c n ok => bridge_call_result g c n ok
   | OBridgeCallIn c r rf toks ok to => bridge_call_in g c r rf toks ok to
-  | OConvertCoin t a b x => with_tok g t (fun tk => convert_coin tk a b x)
-  | OConvertERC20 t a b x => with_tok g t (fun tk => convert_erc20 tk a b x)
-  | OConvertDenom t a b src tg x => with_tok g t (fun tk => msg_convert_denom tk a b src tg x)
-  | OToggle t => fun s => Some (with_disabled (set1 t (1 - get1 t (disabled s))) s)
+  | OConvertCoin t a b x => with_tok g t (fun tk => doB (convert_coin tk a b x))
+  | OConvertERC20 t a b x => with_tok g t (fun tk => doB (convert_erc20 tk a b x))
+  | OConvertDenom t a b src tg x => with_tok g t (fun tk => doB (msg_convert_denom tk a b src tg x))
+  | OToggle t => toggle t
   | OPreCrossChain c t a amt fee nat => with_tok g t (fun tk => pre_cross_chain tk c a amt fee nat)
   | OPreBridgeCall c a r v toks to => pre_bridge_call g c a r v toks to
   | OPreCancel c a id => cancel_send g c a id
-  | OPreIncreaseFee c t a id x nat => with_tok g t (fun tk => pre_increase_fee g tk c a id x nat)
-  | OBankSend a b d x => send a b d x
-  | OErc20Transfer t a b x => erc20_transfer t a b x
-  | OWfxDeposit a x => send a A_WFX FX x ;; erc20_mint 0 a x
-  | OWfxWithdraw a x => erc20_burn 0 a x ;; send A_WFX a FX x
-  | OIbcMint t a x => with_tok g t (fun tk => guard (t_ibc tk && negb (is_fx tk)) ;;
-                                              mint A_IBC (ibc_of tk) x ;; send A_IBC a (ibc_of tk) x ;;
+  | OPreIncreaseFee c t a id x nat => with_tok g t (fun tk => pre_increase_fee tk c a id x nat)
+  | OBankSend a b d x => doB (send a b d x)
+  | OErc20Transfer t a b x => doB (erc20_transfer t a b x)
+  | OWfxDeposit a x => doB (send a A_WFX FX x ++ erc20_mint 0 a x)
+  | OWfxWithdraw a x => doB (erc20_burn 0 a x ++ send A_WFX a FX x)
+  | OIbcMint t a x => with_tok g t (fun tk => doB (Chk (t_ibc tk && negb (is_fx tk)) ::
+                                                   mint A_IBC (ibc_of tk) x ++ send A_IBC a (ibc_of tk) x) ;;
                                               dep_add t 9 x)
-  | OIbcToBase t a x => with_tok g t (fun tk => ibc_to_base tk a x)
-  | OBaseToIbc t a x => with_tok g t (fun tk => base_to_ibc tk a x)
+  | OIbcToBase t a x => with_tok g t (fun tk => doB (ibc_to_base tk a x))
+  | OBaseToIbc t a x => with_tok g t (fun tk => doB (base_to_ibc tk a x))
   end.
 
 (* transaction semantics: a failing operation leaves the state unchanged *)
